@@ -190,6 +190,36 @@ Definition chomp (l : str) : str :=
   end.
 Definition splitlines (s : str) : list str := map chomp (splitlines_keep s).
 
+(* the lines of a docstring as parser._splitlines cuts them since fix F28: re.split('\r\n|\r|\n') with a final empty piece
+   dropped - like str.splitlines(), but broken at newlines and carriage returns ONLY (a form feed, a vertical tab or a unicode
+   separator is a character of its line, as it is for the tokenizer and in the file) *)
+Definition is_srcbreak (c : char) : bool := (c =? NL) || (c =? CR).
+
+Fixpoint srclines_keep_aux (s : str) (cur_rev : str) : list str :=
+  match s with
+  | [] => flush_rev cur_rev
+  | c :: s' =>
+      if c =? CR then
+        match s' with
+        | d :: s'' => if d =? NL
+                      then rev (d :: c :: cur_rev) :: srclines_keep_aux s'' []
+                      else rev (c :: cur_rev) :: srclines_keep_aux s' []
+        | [] => [rev (c :: cur_rev)]
+        end
+      else if is_srcbreak c then rev (c :: cur_rev) :: srclines_keep_aux s' []
+      else srclines_keep_aux s' (c :: cur_rev)
+  end.
+Definition srclines_keep (s : str) : list str := srclines_keep_aux s [].
+
+Definition src_chomp (l : str) : str :=
+  match rev l with
+  | a :: b :: r => if (a =? NL) && (b =? CR) then rev r
+                   else if is_srcbreak a then rev (b :: r) else l
+  | [a] => if is_srcbreak a then [] else l
+  | [] => []
+  end.
+Definition srclines (s : str) : list str := map src_chomp (srclines_keep s).
+
 (* ---------- misc list helpers ---------- *)
 
 Definition last_opt {A} (l : list A) : option A :=
